@@ -132,7 +132,9 @@ func Load(repo string) (*Ctx, error) {
 	c.varInits = map[*types.Var]ast.Expr{}
 	c.varPkg = map[*types.Var]*packages.Package{}
 	for _, p := range c.All {
-		if !strings.HasPrefix(p.PkgPath, ModPath) {
+		// the repository's packages, and the few standard-library packages that are plain Go over an interface the caller
+		// implements (interpreted from their source like repository code)
+		if !strings.HasPrefix(p.PkgPath, ModPath) && !InterpretedStdlib[p.PkgPath] {
 			continue
 		}
 		for _, f := range p.Syntax {
@@ -161,6 +163,9 @@ func Load(repo string) (*Ctx, error) {
 	}
 	return c, nil
 }
+
+// InterpretedStdlib: standard-library packages whose functions are interpreted from source.
+var InterpretedStdlib = map[string]bool{"container/heap": true}
 
 // RelOf returns the repository-relative path of a package ("" for foreign packages).
 func (c *Ctx) RelOf(p *types.Package) string {
